@@ -397,14 +397,18 @@ def op_spurious_ili_def(lex, v, p, q, ver):
     ss['ili_definition'] = {'text': '' if v % 3 == 2 else 'spurious gloss', 'meta': None}
 
 
+# blank = empty or white space only (load() keeps the latter under xml:space="preserve")
+_BLANKS = ('', ' ', '', ' \n\t ')
+
+
 def op_blank_definition(lex, v, p, q, ver):
     sss = _need_synsets(lex, 1)
     ss = sss[p % len(sss)]
     defs = ss.setdefault('definitions', [])
     if v % 2 == 0 or not defs:
-        defs.append({'text': '', 'meta': None})
+        defs.append({'text': _BLANKS[q % 4], 'meta': None})
     else:
-        defs[q % len(defs)]['text'] = ''
+        defs[q % len(defs)]['text'] = _BLANKS[(q // 2) % 4]
 
 
 def op_blank_example(lex, v, p, q, ver):
@@ -416,9 +420,9 @@ def op_blank_example(lex, v, p, q, ver):
     ss = sss[p % len(sss)]
     exs = ss.setdefault('examples', [])
     if v % 3 == 0 or not exs:
-        exs.append({'text': '', 'meta': None})
+        exs.append({'text': _BLANKS[q % 4], 'meta': None})
     else:
-        exs[q % len(exs)]['text'] = ''
+        exs[q % len(exs)]['text'] = _BLANKS[(q // 2) % 4]
 
 
 def op_repeat_definition(lex, v, p, q, ver):
